@@ -741,6 +741,10 @@ class GCodeBuilder(GCodeCore):
         self.state._ensure_tool_is_inactive("Halt with tool on.")
         self.state._ensure_coolant_is_inactive("Halt with coolant on.")
 
+        # Format the statement first, it rejects non-finite values
+
+        statement = self._get_statement(mode, kwargs)
+
         # Track temperatures if provided
 
         keys = ["S", "R"]  # Wait when heating, or wait always
@@ -756,7 +760,6 @@ class GCodeBuilder(GCodeCore):
 
         # Output the statement
 
-        statement = self._get_statement(mode, kwargs)
         self.state._set_halt_mode(mode)
         self.write(statement)
 
